@@ -154,8 +154,15 @@ func GenOpenCase(seed uint64, idx int) OpenCase {
 		i := r.Intn(len(e2))
 		e2[i] = e2[i] + "f"
 		c.B = Opening{Salt: salt, VD: []VD{{Topic: 1, Entries: e2}}}
-	case k < 90: // different salt
+	case k < 85: // different salt
 		c.B = Opening{Salt: salt + "0", VD: c.A.VD}
+	case k < 93: // further items of the same topic before / after the committed one (different committed bytes)
+		extra := VD{Topic: 1, Entries: []string{genEntry(r, chains)}}
+		if r.Chance(60) {
+			c.B = Opening{Salt: salt, VD: []VD{extra, {Topic: 1, Entries: entries}}}
+		} else {
+			c.B = Opening{Salt: salt, VD: []VD{{Topic: 1, Entries: entries}, extra}}
+		}
 	default: // entry dropped / order swapped
 		e2 := append([]string{}, entries...)
 		if len(e2) > 1 {
